@@ -301,6 +301,20 @@ func (o OneOfSchema[KeyType]) selectMember(data map[string]any) (KeyType, Object
 	return selectedTypeIDAsserted, selectedSchema, nil
 }
 
+// memberOf finds the member that the discriminator among the fields selects, whatever form the discriminator is in.
+func (o OneOfSchema[KeyType]) memberOf(fields map[string]any) (Object, bool) {
+	discriminator, isSet := fields[o.DiscriminatorFieldNameValue]
+	if !isSet || discriminator == nil {
+		return nil, false
+	}
+	typedDiscriminator, err := o.getTypedDiscriminator(discriminator)
+	if err != nil {
+		return nil, false
+	}
+	member, found := o.TypesValue[typedDiscriminator]
+	return member, found && member != nil
+}
+
 // validateMap is the data-mode compatibility check: the member the discriminator selects must be compatible with
 // the non-discriminator fields.
 func (o OneOfSchema[KeyType]) validateMap(data map[string]any) (KeyType, Object, error) {
